@@ -430,13 +430,24 @@ class Machine:
                         yield e2, ctl
             return
         if k in ('for', 'while', 'do'):
-            # inner loops only scan untracked buffers: they must not touch tracked state
+            # inner loops only scan untracked buffers: they must not change tracked state; stack *queries* (top) are allowed
+            # and are checked by interpreting the body once (zero iterations is the other abstract outcome)
             for e in ir.stmt_exprs(s):
                 if (e.get('k') == 'bin' and e.get('op', '').endswith('=') and e['op'] not in ('==', '!=', '<=', '>=') and self.is_tracked(e['x'])) or \
-                   (e.get('k') == 'call' and e.get('obj') is not None and self.stack_name(e['obj'])) or \
+                   (e.get('k') == 'un' and e.get('op') in ('post++', 'post--', 'pre++', 'pre--') and self.is_tracked(e['e'])) or \
+                   (e.get('k') == 'call' and e.get('obj') is not None and self.stack_name(e['obj']) and (e.get('pq') or '').split('::')[-1] not in ('top', 'length')) or \
                    (e.get('k') == 'var' and e.get('id') == self.cursor):
                     raise Stuck('inner loop at line %d modifies tracked state or the cursor' % s.get('l', 0))
-            yield env, None
+            yield env.copy(), None
+            e1 = env
+            if s.get('init') is not None:
+                for v in (s['init'].get('vars') or []):
+                    e1.locals[v['id']] = U
+            for e2, ctl in self.exec_stmt(s['body'], e1, c):
+                if ctl in (None, 'break', 'continue'):
+                    yield e2, None
+                else:
+                    yield e2, ctl
             return
         if k == 'return':
             if s.get('e') is not None:
